@@ -18,7 +18,7 @@ import (
 	"github.com/bits-and-blooms/bloom/v3"
 )
 
-func init() { register("rsem", []string{"C01", "C02", "C18"}, runRsem) }
+func init() { register("rsem", []string{"C01", "C02", "C18", "C24"}, runRsem) }
 
 const runnerR = "Model.Json Model.Expr Model.MinMax Model.QueryFn Cases.RunnerR"
 
@@ -28,6 +28,8 @@ func violFor(c *Ctx) string {
 		return "violations_c02"
 	case c.Props["C18"]:
 		return "violations_c18"
+	case c.Props["C24"]:
+		return "violations_c24"
 	case c.Props["C01"]:
 		return "violations_c01"
 	}
@@ -96,12 +98,18 @@ func runRsem(c *Ctx) {
 	sh.limit = 700
 
 	nRows := c.pick(450, 12000)
+	if len(c.Props) == 1 && c.Props["C24"] {
+		nRows = 0 // C24 is about the read plan: end-to-end scenarios only
+	}
 	for i := 0; i < nRows; i++ {
 		rsemRowCase(c, sh, props)
 	}
 	she := c.newShard("e", runnerR, "caseR", "mismatches", violFor(c))
 	she.limit = 12
 	nScen := c.pick(40, 600)
+	if len(c.Props) == 1 && c.Props["C24"] {
+		nScen = c.pick(70, 900)
+	}
 	for s := 0; s < nScen; s++ {
 		rsemScenario(c, she, s)
 	}
@@ -330,6 +338,8 @@ func rsemScenario(c *Ctx, sh *shard, scen int) {
 		rows    []*e2eRow
 	}
 	type obsFile struct {
+		pointer string
+		meta    bs.FileMetadata
 		filters bs.BloomFilters
 		blocks  []*obsBlock
 	}
@@ -337,7 +347,7 @@ func rsemScenario(c *Ctx, sh *shard, scen int) {
 	allTexts := map[string]bool{}
 	for f, err := range meta.GetMaybeFilesForQuery(ctx, nil) {
 		must(err)
-		of := &obsFile{filters: f.Metadata.BloomFilters}
+		of := &obsFile{pointer: string(f.PointerBytes), meta: f.Metadata, filters: f.Metadata.BloomFilters}
 		for _, bm := range f.Metadata.DataBlocks {
 			h, err := data.OpenFile(ctx, f.PointerBytes)
 			must(err)
@@ -402,6 +412,38 @@ func rsemScenario(c *Ctx, sh *shard, scen int) {
 			}
 		}
 	}
+	// C18 (metadata part), directly: partition id, exact minmax key set, range coverage
+	for _, of := range files {
+		for _, ob := range of.blocks {
+			provided := map[string]bool{}
+			for _, r := range ob.rows {
+				if cfg.PartitionFunc != nil && cfg.PartitionFunc(r.tr.row) != ob.meta.PartitionID {
+					c.violation("c18-partition", fmt.Sprintf("block partition %q holds row of partition %q", ob.meta.PartitionID, cfg.PartitionFunc(r.tr.row)), nil)
+				}
+				for _, k := range cfg.MinMaxIndexes {
+					v, ok := r.tr.row[k]
+					if !ok {
+						continue
+					}
+					lo, hi, isNum := bs.ConvertToMinMaxInt64(v)
+					if !isNum {
+						continue
+					}
+					provided[k] = true
+					idx, has := ob.meta.MinMaxIndexes[k]
+					if !has || idx.Min > lo || idx.Max < hi {
+						c.violation("c18-minmax-cover", fmt.Sprintf("block range %v (present=%v) does not cover [%d,%d] of key %q", idx, has, lo, hi, k), nil)
+					}
+				}
+			}
+			for k := range ob.meta.MinMaxIndexes {
+				if !provided[k] {
+					c.violation("c18-minmax-keys", fmt.Sprintf("block lists minmax key %q that none of its rows provides", k), nil)
+				}
+			}
+			c.count([]string{"C18"}, fmt.Sprintf("meta:%v:%v", ob.meta.MinMaxIndexes, ob.meta.PartitionID), len(ob.meta.MinMaxIndexes) > 0, nil)
+		}
+	}
 	if stored != len(rows) {
 		c.violation("e2e-row-count", fmt.Sprintf("stored %d rows, ingested and acknowledged %d", stored, len(rows)), nil)
 		return
@@ -436,6 +478,13 @@ func rsemScenario(c *Ctx, sh *shard, scen int) {
 			e, ecoq := c.genPExpr(2, []string{"n"}, near)
 			q.Prefilter = &bs.QueryPrefilter{Expression: &e}
 			pcoq = "(Some " + ecoq + ")"
+		}
+		logStart := 0
+		mem, isMem := data.(*memDataStore)
+		if isMem {
+			mem.mu.Lock()
+			logStart = len(mem.calls)
+			mem.mu.Unlock()
 		}
 		res, err := eng.Query(ctx, q)
 		if err != nil {
@@ -488,7 +537,7 @@ func rsemScenario(c *Ctx, sh *shard, scen int) {
 				for _, r := range ob.rows {
 					rcoq = append(rcoq, fmt.Sprintf("{| sr_id := %d; sr_json := %s; sr_pre := %s |}", r.id, r.tree.coq(), r.tr.coq([]string{"n"})))
 				}
-				bcoq = append(bcoq, fmt.Sprintf("{| cb_meta := %s; cb_filters := %s; cb_rows := %s |}", coqBlockMeta(&ob.meta), coqFtab(ob.filters, fields, tokens, fts), coqList(rcoq)))
+				bcoq = append(bcoq, fmt.Sprintf("{| cb_meta := %s; cb_filters := %s; cb_section := %s; cb_rows := %s |}", coqBlockMeta(&ob.meta), coqFtab(ob.filters, fields, tokens, fts), coqBool(ob.meta.BloomFilterSize > 0), coqList(rcoq)))
 			}
 			fcoq = append(fcoq, fmt.Sprintf("{| cf_filters := %s; cf_blocks := %s |}", coqFtab(&of.filters, fields, tokens, fts), coqList(bcoq)))
 		}
@@ -496,14 +545,76 @@ func rsemScenario(c *Ctx, sh *shard, scen int) {
 		for i, g := range got {
 			gotc[i] = strconv.Itoa(g)
 		}
-		term := fmt.Sprintf("CQuery %s %s %s {| q_pre := %s; q_bloom := %s; q_regex := %s |} %s", coqTokTab(allTexts, tk.oracle), coqReTab(allTexts, pats),
-			coqList(fcoq), pcoq, coqBQuery(q.Bloom), coqRQuery(q.Regex), coqList(gotc))
+		reads := "None"
+		if isMem {
+			mem.mu.Lock()
+			calls := append([]storeCall(nil), mem.calls[logStart:]...)
+			mem.mu.Unlock()
+			fidx := map[string]int{}
+			for i, of := range files {
+				fidx[of.pointer] = i
+			}
+			opened, region := map[int]bool{}, map[int]bool{}
+			rowsRead := map[[2]int]bool{}
+			for _, cl := range calls {
+				fi, ok := fidx[cl.Pointer]
+				if !ok {
+					continue
+				}
+				of := files[fi]
+				switch cl.Kind {
+				case "OpenFile":
+					opened[fi] = true
+				case "Read":
+					if cl.Len == 0 {
+						continue
+					}
+					lo, hi := cl.Off, cl.Off+int64(cl.Len)
+					matched := false
+					for bi, ob := range of.blocks {
+						if lo == int64(ob.meta.RowDataOffset) && hi == int64(ob.meta.RowDataOffset+ob.meta.RowDataSize) {
+							rowsRead[[2]int{fi, bi}] = true
+							matched = true
+						}
+					}
+					rs, re := int64(of.meta.BlockFilterRegionOffset), int64(of.meta.BlockFilterRegionOffset+of.meta.BlockFilterRegionSize)
+					if !matched && lo >= rs && hi <= re {
+						region[fi] = true
+						matched = true
+					}
+					if !matched {
+						c.violation("c24-extent", fmt.Sprintf("query read [%d,%d) of %s: neither a block's declared row-data extent nor inside the block filter region [%d,%d)", lo, hi, cl.Pointer, rs, re), nil)
+					}
+				}
+			}
+			var oc, rc, gc []string
+			for i := range files {
+				if opened[i] {
+					oc = append(oc, strconv.Itoa(i))
+				}
+				if region[i] {
+					gc = append(gc, strconv.Itoa(i))
+				}
+				for bi := range files[i].blocks {
+					if rowsRead[[2]int{i, bi}] {
+						rc = append(rc, fmt.Sprintf("(%d, %d)", i, bi))
+					}
+				}
+			}
+			reads = fmt.Sprintf("(Some {| ro_opened := %s; ro_rows := %s; ro_region := %s |})", coqList(oc), coqList(rc), coqList(gc))
+			c.dist("e2e_reads", fmt.Sprintf("opened=%s region=%s rows=%s", bucket(len(oc), len(files)), bucket(len(gc), len(files)), bucket(len(rc), stored/1+0)))
+		}
+		term := fmt.Sprintf("CQuery %s %s %s {| q_pre := %s; q_bloom := %s; q_regex := %s |} %s %s", coqTokTab(allTexts, tk.oracle), coqReTab(allTexts, pats),
+			coqList(fcoq), pcoq, coqBQuery(q.Bloom), coqRQuery(q.Regex), coqList(gotc), reads)
 		desc := map[string]any{"kind": "query", "scenario": scen, "rows": len(rows), "files": len(files), "fs_metastore": useFS, "merged": merged,
 			"tokenizer": tk.name, "bloom": q.Bloom, "regex": q.Regex, "prefilter": q.Prefilter, "returned_ids": got}
 		sh.add(c, term, desc)
 		nontrivial := (hasB || hasR || hasP) && len(got) > 0 && len(got) < len(rows)
 		c.dist("e2e_result", fmt.Sprintf("returned=%s", bucket(len(got), len(rows))))
 		c.count([]string{"C01", "C02", "C18"}, term, nontrivial, desc)
+		if isMem {
+			c.count([]string{"C24"}, "c24:"+term, hasB || hasR || hasP, desc)
+		}
 	}
 	_ = strings.Join
 }
